@@ -409,6 +409,12 @@ func runC03(c *eng.Ctx) {
 		c.Check(eng.DominatedBy(mg, fl.Instr, []eng.Site{hk}, nil), "iterates-union", fl.Instr, mg, "the series iterated are those of the union bitmap", "")
 	})
 
+	// ---- a source block answers only for a field id it really holds --------------------------------------------------------------------
+	c.Rule("GUARD", "tsdb/tblstore/metricsdata.fieldReader.GetFieldData{only the requested field}", func() { fieldDataOnlyForHeldField(c) })
+
+	// ---- every level-1 input of a compaction is listed once -----------------------------------------------------------------------------
+	c.Rule("UNION", "kv/version.version.PickL0Compaction{distinct level-1 inputs}", func() { distinctUpInputs(c) })
+
 	// ---- block writer anchors -----------------------------------------------------------------------------------------------------------
 	c.Rule("ANCHOR", mfT+".FlushSeries{startAt}", func() { flusherAnchors(c) })
 
@@ -681,4 +687,127 @@ func blockFooter(c *eng.Ctx) {
 	}
 	fsz := constOf(c, "tsdb/tblstore/metricsdata", "dataFooterSize")
 	c.Check(fsz == ext, "footer-size", nil, w, "dataFooterSize equals the extent the writer fills", fmt.Sprintf("const %d, extent %d", fsz, ext))
+}
+
+// fieldDataOnlyForHeldField: fieldReader.GetFieldData returns bytes only on the found-edge of the lookup of the REQUESTED field
+// id in the block's own field index (a block that does not hold the field answers nil, also when it holds exactly one field).
+// Otherwise the merge re-aggregates one field's values into every field of the merged metric.
+func fieldDataOnlyForHeldField(c *eng.Ctx) {
+	p := c.P
+	f := c.Fn("tsdb/tblstore/metricsdata.fieldReader.GetFieldData")
+	facts := p.MustFacts(f)
+	var look *ssa.Lookup
+	for _, b := range f.Blocks {
+		for _, in := range b.Instrs {
+			if l, ok := in.(*ssa.Lookup); ok && l.CommaOk && eng.DependsOnField(l.X, "tsdb/tblstore/metricsdata.fieldReader.fieldIndexes") {
+				look = l
+			}
+		}
+	}
+	if look == nil {
+		c.Undecided("no comma-ok lookup in fieldReader.fieldIndexes found in GetFieldData")
+	}
+	c.Check(len(f.Params) > 1 && eng.DependsOn(look.Index, func(x ssa.Value) bool { return x == ssa.Value(f.Params[1]) }), "looks-up-requested-id", look, f,
+		"the field index is consulted for the requested field id", "index "+p.Desc(look.Index))
+	n := 0
+	for _, b := range f.Blocks {
+		for _, in := range b.Instrs {
+			r, ok := in.(*ssa.Return)
+			if !ok || b == f.Recover {
+				continue
+			}
+			rv := eng.RetVal(r, 0)
+			if rv == nil || eng.IsNilConst(rv) {
+				continue
+			}
+			fs := facts.At(r)
+			held := facts.Find(fs, "true", func(_ string, v ssa.Value) bool { return extractIs(v, look, 1) }, nil)
+			c.Check(len(held) > 0, fmt.Sprintf("data-only-if-field-held[%d]", n), r, f, "data is returned only when the block's field index holds the requested field id",
+				"returns "+p.Desc(rv)+" with facts: "+strings.Join(facts.Render(fs), " ; "))
+			n++
+		}
+	}
+	c.Check(n >= 2, "data-returns-found", nil, f, "GetFieldData has its two data-returning exits (single-field entry, field block)", fmt.Sprintf("%d", n))
+}
+
+// distinctUpInputs: the level-1 files handed to NewCompaction by PickL0Compaction pass through a container keyed by file
+// number (each file is opened and merged once even when several level-0 files overlap it); a file listed twice would be
+// aggregated twice by the merger (sums doubled).
+func distinctUpInputs(c *eng.Ctx) {
+	p := c.P
+	f := c.Fn("kv/version.version.PickL0Compaction")
+	nc := c.One(f, eng.CallTo("kv/version.NewCompaction"), "NewCompaction(...)")
+	up := eng.CallArgs(nc.Instr.(*ssa.Call))[3]
+	ov := c.Some(f, eng.CallTo("kv/version.version.getOverlappingInputs"), "getOverlappingInputs(1, ...)")
+	// the overlap results reach the level-up argument only through a container keyed by GetFileNumber():
+	//   (a) a map file-number -> file whose values are then listed, or
+	//   (b) appends guarded by a not-yet-seen lookup in a set keyed by file number
+	isNumber := func(v ssa.Value) bool {
+		return eng.DependsOn(v, func(x ssa.Value) bool {
+			cl, ok := x.(*ssa.Call)
+			if !ok {
+				return false
+			}
+			if cl.Common().IsInvoke() {
+				return cl.Common().Method.Name() == "GetFileNumber"
+			}
+			return cl.Common().StaticCallee() != nil && baseName(cl.Common().StaticCallee().Name()) == "GetFileNumber"
+		})
+	}
+	fromOv := func(v ssa.Value) bool {
+		return eng.DependsOn(v, func(x ssa.Value) bool { return x == ov[0].Instr.(ssa.Value) })
+	}
+	var keyedMaps []ssa.Value
+	for _, b := range f.Blocks {
+		for _, in := range b.Instrs {
+			if mu, ok := in.(*ssa.MapUpdate); ok && isNumber(mu.Key) && fromOv(mu.Key) {
+				keyedMaps = append(keyedMaps, mu.Map)
+			}
+		}
+	}
+	isKeyed := func(m ssa.Value) bool {
+		for _, k := range keyedMaps {
+			if eng.SameValue(k, m) {
+				return true
+			}
+		}
+		return false
+	}
+	keyed := false
+	dbg := ""
+	if len(keyedMaps) > 0 {
+		fromMap := eng.DependsOn(up, func(x ssa.Value) bool {
+			r, ok := x.(*ssa.Range)
+			return ok && isKeyed(r.X)
+		})
+		direct := fromOv(up)
+		if fromMap && !direct {
+			keyed = true // (a)
+		} else if direct {
+			// (b): every append of an overlap element is guarded by a lookup in the keyed set
+			all, n := true, 0
+			for _, ap := range p.Sites(f, eng.CallTo("builtin:append")) {
+				call := ap.Instr.(*ssa.Call)
+				args := call.Common().Args
+				if len(args) < 2 || !fromOv(args[1]) {
+					continue
+				}
+				n++
+				cds, _ := eng.GuardingConds(f, call)
+				g := false
+				for _, cd := range cds {
+					if eng.DependsOn(cd, func(x ssa.Value) bool { l, ok := x.(*ssa.Lookup); return ok && isKeyed(l.X) && isNumber(l.Index) }) {
+						g = true
+					}
+				}
+				if !g {
+					all = false
+				}
+			}
+			keyed = all && n > 0
+			dbg = fmt.Sprintf(" appends=%d allGuarded=%v", n, all)
+		}
+		c.Check(keyed, "up-inputs-from-the-keyed-set", nc.Instr, f, "the level-1 inputs passed to NewCompaction are taken from / filtered by the set keyed by file number", fmt.Sprintf("fromMap=%v direct=%v arg=%s%s", fromMap, direct, p.Desc(up), dbg))
+	}
+	c.Check(keyed, "overlaps-collected-by-file-number", nc.Instr, f, "overlapping level-1 files are collected into a map keyed by file number", "no such map update")
 }
